@@ -795,6 +795,14 @@ def fam_npy_stack(chk, da, tier):
             rank = len(shape)
             axis = rng.randrange(rank)
             neg = rng.random() < 0.1
+            if it % 8 == 0:
+                # many files: block k must be read back from "<k>.npy" (10.npy sorts before 2.npy as a string)
+                nb = rng.choice([11, 12, 13, 21, 101])
+                sizes = tuple(rng.choice([1, 1, 2]) for _ in range(nb)) if nb < 100 else (1,) * nb
+                shape = tuple(sum(sizes) if k == axis else min(n, 3) for k, n in enumerate(shape))
+                chunks = tuple(sizes if k == axis else (shape[k],) for k in range(rank))
+                neg = False
+                chk.count("npy:more-than-10-files")
             if neg:
                 axis -= rank
             a = BASE + np.arange(int(np.prod(shape)), dtype=np.int64).reshape(shape)
